@@ -1,16 +1,29 @@
 /-
 C11 — the lexical forms: the string forms of xs:dateTime / xs:date / xs:time values re-parse to the value
 (`fromstring(str(v)) = v`): digits and zero padding, the maximal digit runs of the year and of the fraction,
-the fixed-width fields, the timezone group (C10's `tz_parse_canon_roundtrip`, imported), `strip`.
+the fixed-width fields, the timezone group (`tz_parse_canon_roundtrip`: kernel evaluation over the 1681 offsets), `strip`.
 -/
 import EPV.Model.CalendarLex
 import EPV.Lemmas.CalendarTime
-import EPV.Props.C10Tz
 set_option linter.unusedVariables false
 set_option linter.unusedSimpArgs false
 namespace EPV.Cal
-open EPV.Lex (Str)
+open EPV.CalLex (Str)
 open EPV.Timeline (monthLen)
+
+/-- every offset of −14:00 … +14:00 renders to a literal of the timezone group that re-parses to it -/
+def tzRound (n : Nat) : Bool :=
+  let v : Int := (n : Int) - 840
+  EPV.CalLex.tzParse (EPV.CalLex.tzCanon v) == some v
+
+theorem tzRound_all : (List.range 1681).all tzRound = true := by decide +kernel
+
+theorem tz_parse_canon_roundtrip (v : Int) (h1 : -840 ≤ v) (h2 : v ≤ 840) :
+    EPV.CalLex.tzParse (EPV.CalLex.tzCanon v) = some v := by
+  have := List.all_eq_true.mp tzRound_all (v + 840).toNat (List.mem_range.mpr (by omega))
+  have e : (((v + 840).toNat : Nat) : Int) - 840 = v := by omega
+  simp only [tzRound, e, beq_iff_eq] at this
+  exact this
 
 theorem pad_all_digits (w n : Nat) : ∀ c ∈ pad w n, c.isDigit = true := by
   intro c hc
@@ -170,24 +183,24 @@ theorem parseTimeBody_fmt (us : Int) (h0 : 0 ≤ us) (h1 : us < 86400000000) (ta
         | nil => exact absurd h hne
         | cons _ _ => rfl
       simp [this]
-theorem digit_not_white (c : Char) (h : c.isDigit = true) : EPV.Lex.isPyWhite c = false := by
+theorem digit_not_white (c : Char) (h : c.isDigit = true) : EPV.CalLex.isPyWhite c = false := by
   unfold Char.isDigit at h
-  unfold EPV.Lex.isPyWhite EPV.Lex.pyWhiteCPs
+  unfold EPV.CalLex.isPyWhite EPV.CalLex.pyWhiteCPs
   simp only [Bool.and_eq_true, decide_eq_true_eq] at h
   have h1 : 48 ≤ c.toNat := by
     have := h.1; unfold Char.toNat; exact UInt32.le_iff_toNat_le.mp this
   simp only [List.contains_cons, List.contains_nil, Bool.or_false, Bool.or_eq_false_iff, beq_eq_false_iff_ne, ne_eq]
   refine ⟨by omega, by omega, by omega, by omega⟩
 
-theorem pyStrip_id (s : Str) (hne : s ≠ []) (hh : ∀ c, s.head? = some c → EPV.Lex.isPyWhite c = false)
-    (hl : ∀ c, s.getLast? = some c → EPV.Lex.isPyWhite c = false) : EPV.Lex.pyStrip s = s := by
-  unfold EPV.Lex.pyStrip EPV.Lex.isPyStripWhite
-  have h1 : s.dropWhile EPV.Lex.isPyWhite = s := by
+theorem pyStrip_id (s : Str) (hne : s ≠ []) (hh : ∀ c, s.head? = some c → EPV.CalLex.isPyWhite c = false)
+    (hl : ∀ c, s.getLast? = some c → EPV.CalLex.isPyWhite c = false) : EPV.CalLex.pyStrip s = s := by
+  unfold EPV.CalLex.pyStrip EPV.CalLex.isPyStripWhite
+  have h1 : s.dropWhile EPV.CalLex.isPyWhite = s := by
     cases s with
     | nil => exact absurd rfl hne
     | cons c r => have := hh c rfl; simp [List.dropWhile, this]
   rw [h1]
-  have h2 : s.reverse.dropWhile EPV.Lex.isPyWhite = s.reverse := by
+  have h2 : s.reverse.dropWhile EPV.CalLex.isPyWhite = s.reverse := by
     cases hr : s.reverse with
     | nil => rfl
     | cons c r =>
@@ -198,16 +211,16 @@ theorem pyStrip_id (s : Str) (hne : s ≠ []) (hh : ∀ c, s.head? = some c → 
       simp [List.dropWhile, this]
   rw [h2, List.reverse_reverse]
 
-theorem matchTz_shape (s : Str) (h : EPV.Lex.matchTz s = true) :
+theorem matchTz_shape (s : Str) (h : EPV.CalLex.matchTz s = true) :
     s = ['Z'] ∨ ∃ sg a b c d e, s = [sg, a, b, c, d, e] ∧ (sg = '+' ∨ sg = '-') ∧ e.isDigit = true := by
-  unfold EPV.Lex.matchTz at h
+  unfold EPV.CalLex.matchTz at h
   split at h
   · exact Or.inl rfl
   · rename_i sg a b c d e
     refine Or.inr ⟨sg, a, b, c, d, e, rfl, ?_, ?_⟩
     · simp only [Bool.and_eq_true, Bool.or_eq_true, beq_iff_eq] at h
       exact h.1
-    · simp only [Bool.and_eq_true, Bool.or_eq_true, beq_iff_eq, EPV.Lex.isDigit] at h
+    · simp only [Bool.and_eq_true, Bool.or_eq_true, beq_iff_eq, EPV.CalLex.isDigit] at h
       rcases h.2 with h2 | h2
       · exact h2.2
       · rw [h2.2]; decide
@@ -215,15 +228,15 @@ theorem matchTz_shape (s : Str) (h : EPV.Lex.matchTz s = true) :
 
 theorem fmtTz_facts (tz : Option Int) (htz : ∀ z, tz = some z → -840 ≤ z ∧ z ≤ 840) :
     parseTzTail (fmtTz tz) = some tz ∧ TzHead (fmtTz tz) ∧
-    (∀ c, (fmtTz tz).getLast? = some c → EPV.Lex.isPyWhite c = false) := by
+    (∀ c, (fmtTz tz).getLast? = some c → EPV.CalLex.isPyWhite c = false) := by
   cases tz with
   | none => exact ⟨rfl, Or.inl rfl, by intro c h; cases h⟩
   | some z =>
     have hz := htz z rfl
-    have rt := (EPV.C10.tz_parse_canon_roundtrip z hz.1 hz.2).1
-    have hm : EPV.Lex.matchTz (EPV.Lex.tzCanon z) = true := by
-      unfold EPV.Lex.tzParse at rt
-      by_cases hm : EPV.Lex.matchTz (EPV.Lex.tzCanon z) = true
+    have rt := (tz_parse_canon_roundtrip z hz.1 hz.2)
+    have hm : EPV.CalLex.matchTz (EPV.CalLex.tzCanon z) = true := by
+      unfold EPV.CalLex.tzParse at rt
+      by_cases hm : EPV.CalLex.matchTz (EPV.CalLex.tzCanon z) = true
       · exact hm
       · simp [hm] at rt
     simp only [fmtTz]
@@ -315,36 +328,36 @@ theorem parseDateBody_fmt (v11 : Bool) (y : Int) (m d : Nat) (hm : m < 100) (hd 
       rw [if_neg (by simp only [List.length_cons] at hlen ⊢; omega)]
       simp only [t1, t2]
 
-theorem nonwhite_of_ge (c : Char) (h : 33 ≤ c.toNat) : EPV.Lex.isPyWhite c = false := by
-  unfold EPV.Lex.isPyWhite EPV.Lex.pyWhiteCPs
+theorem nonwhite_of_ge (c : Char) (h : 33 ≤ c.toNat) : EPV.CalLex.isPyWhite c = false := by
+  unfold EPV.CalLex.isPyWhite EPV.CalLex.pyWhiteCPs
   simp only [List.contains_cons, List.contains_nil, Bool.or_false, Bool.or_eq_false_iff, beq_eq_false_iff_ne, ne_eq]
   refine ⟨by omega, by omega, by omega, by omega⟩
 
-theorem pyStrip_id_of_all (s : Str) (hne : s ≠ []) (h : ∀ c ∈ s, EPV.Lex.isPyWhite c = false) : EPV.Lex.pyStrip s = s := by
+theorem pyStrip_id_of_all (s : Str) (hne : s ≠ []) (h : ∀ c ∈ s, EPV.CalLex.isPyWhite c = false) : EPV.CalLex.pyStrip s = s := by
   apply pyStrip_id s hne
   · intro c hc; exact h c (List.mem_of_mem_head? hc)
   · intro c hc; exact h c (List.mem_of_getLast? hc)
 
 /-- every character of a timezone rendering is visible -/
 theorem fmtTz_nonwhite (tz : Option Int) (htz : ∀ z, tz = some z → -840 ≤ z ∧ z ≤ 840) :
-    ∀ c ∈ fmtTz tz, EPV.Lex.isPyWhite c = false := by
+    ∀ c ∈ fmtTz tz, EPV.CalLex.isPyWhite c = false := by
   cases tz with
   | none => intro c hc; cases hc
   | some z =>
     have hz := htz z rfl
-    have rt := (EPV.C10.tz_parse_canon_roundtrip z hz.1 hz.2).1
-    have hm : EPV.Lex.matchTz (EPV.Lex.tzCanon z) = true := by
-      unfold EPV.Lex.tzParse at rt
-      by_cases hm : EPV.Lex.matchTz (EPV.Lex.tzCanon z) = true
+    have rt := (tz_parse_canon_roundtrip z hz.1 hz.2)
+    have hm : EPV.CalLex.matchTz (EPV.CalLex.tzCanon z) = true := by
+      unfold EPV.CalLex.tzParse at rt
+      by_cases hm : EPV.CalLex.matchTz (EPV.CalLex.tzCanon z) = true
       · exact hm
       · simp [hm] at rt
     simp only [fmtTz]
-    generalize EPV.Lex.tzCanon z = s at hm
-    unfold EPV.Lex.matchTz at hm
+    generalize EPV.CalLex.tzCanon z = s at hm
+    unfold EPV.CalLex.matchTz at hm
     split at hm
     · intro c hc; simp at hc; subst hc; decide
     · rename_i sg a b c d e
-      simp only [Bool.and_eq_true, Bool.or_eq_true, beq_iff_eq, EPV.Lex.isDigit, decide_eq_true_eq] at hm
+      simp only [Bool.and_eq_true, Bool.or_eq_true, beq_iff_eq, EPV.CalLex.isDigit, decide_eq_true_eq] at hm
       have ge0 : ∀ x : Char, '0' ≤ x → 33 ≤ x.toNat := by
         intro x hx
         have : (48 : Nat) ≤ x.toNat := by
@@ -381,10 +394,10 @@ theorem fmtTz_nonwhite (tz : Option Int) (htz : ∀ z, tz = some z → -840 ≤ 
         · rw [h.2]; decide
     · cases hm
 
-theorem pad_nonwhite (w n : Nat) : ∀ c ∈ pad w n, EPV.Lex.isPyWhite c = false :=
+theorem pad_nonwhite (w n : Nat) : ∀ c ∈ pad w n, EPV.CalLex.isPyWhite c = false :=
   fun c hc => digit_not_white c (pad_all_digits w n c hc)
 
-theorem fmtTimeOfDay_nonwhite (us : Int) : ∀ c ∈ fmtTimeOfDay us, EPV.Lex.isPyWhite c = false := by
+theorem fmtTimeOfDay_nonwhite (us : Int) : ∀ c ∈ fmtTimeOfDay us, EPV.CalLex.isPyWhite c = false := by
   intro c hc
   unfold fmtTimeOfDay at hc
   simp only [List.mem_append, List.mem_cons] at hc
@@ -449,7 +462,7 @@ theorem time_lex_roundtrip (t : DT) (ht : IsTime t) : timeOfLex (fmtTime t) = .o
       ((u.toNat % 1000000 : Nat) : Int) = u := by unfold timeUs; omega
   rw [this]
 
-theorem fmtYear_nonwhite (v11 : Bool) (y : Int) : ∀ c ∈ fmtYear v11 y, EPV.Lex.isPyWhite c = false := by
+theorem fmtYear_nonwhite (v11 : Bool) (y : Int) : ∀ c ∈ fmtYear v11 y, EPV.CalLex.isPyWhite c = false := by
   intro c hc
   unfold fmtYear at hc
   simp only [List.mem_append] at hc
@@ -459,7 +472,7 @@ theorem fmtYear_nonwhite (v11 : Bool) (y : Int) : ∀ c ∈ fmtYear v11 y, EPV.L
     · cases h
   · exact pad_nonwhite _ _ c h
 
-theorem fmtDateBody_nonwhite (v11 : Bool) (v : DT) : ∀ c ∈ fmtDateBody v11 v, EPV.Lex.isPyWhite c = false := by
+theorem fmtDateBody_nonwhite (v11 : Bool) (v : DT) : ∀ c ∈ fmtDateBody v11 v, EPV.CalLex.isPyWhite c = false := by
   intro c hc
   unfold fmtDateBody at hc
   simp only [List.mem_append, List.mem_cons] at hc
@@ -623,7 +636,7 @@ theorem g_lex_roundtrip (k : GKind) (v11 : Bool) (v : DT) (hs : GShape k v) (hv 
   obtain ⟨hus, hshape⟩ := hs
   simp only at hus hm hd em ed hmb hdb hyb tzf tznw
   subst hus
-  have hstrip : ∀ s : Str, s ≠ [] → (∀ c ∈ s, EPV.Lex.isPyWhite c = false) → pyStripAll s = s :=
+  have hstrip : ∀ s : Str, s ≠ [] → (∀ c ∈ s, EPV.CalLex.isPyWhite c = false) → pyStripAll s = s :=
     fun s h1 h2 => pyStrip_id_of_all s h1 h2
   cases k with
   | gYear =>
